@@ -33,6 +33,9 @@ CHECKS["C07"] = ("exploration", "model-based history PBT: generated borrow/close
 CHECKS["C08"] = ("fault_enumeration", "generated scoped_iter block programs vs a shared synchronous iterator; every cancellation point and generated raise positions",
   "Generated nested scoped_iter blocks (depth 1-3) applying any of 26 tools to the scoped handles; items must be next(model), the underlying is never closed inside and exactly once after the outermost exit, inner handles die with their scope only; exit by fall-through, by an exception at a generated position, and by cancellation at EVERY suspension point of the run.",
   "iterators without aclose (documented neutral context) and athrow through the handle are not generated", "4/C08")
+CHECKS["C09"] = ("exploration", "schedule-driven PBT on a harness-owned event loop: generated configurations x generated schedules; exhaustive schedule enumeration for small configurations",
+  "Each tee child runs in its own task; the schedule (which ready task advances) is Hypothesis data; invariants on order, exactly-once fetching, no overlapping source access under a lock, no deadlock, weak-reference retention and 'source closed iff all children done' are checked after EVERY scheduler step; early closes from j=0 and one cancellation at any suspension are generated; all schedules of the 2-children configurations are enumerated in quick, 3-children in thorough.",
+  "cooperative tasks only; granularity = suspension points of user awaitables (complete for this library, see C17)", "4/C09")
 REASONS = {}
 props = [json.loads(l)["id"] for l in open(os.path.join(HERE, "properties.jsonl"))]
 checks = []
